@@ -46,6 +46,7 @@ type lcWorld struct {
 	getLog   *ssa.Function
 	newPlug  *ssa.Function
 	entry    *ssa.Function
+	entryLow *ssa.Function // an entry point of a level the narrow stub loggers disable
 	wrapperT *types.Named
 	pluginT  *types.Named
 }
@@ -62,12 +63,15 @@ func (c *Ctx) newLcWorld(ro *Roles) (*lcWorld, string) {
 		return nil, "Refresh / Destroy / RegisterTag / GetLogger / NewPlugin / LoggerWrapper / Plugin not found"
 	}
 	for _, E := range ro.EntryPoints {
-		if E.Name() == "Info" {
+		if E.Name() == "Error" {
 			w.entry = E
 		}
+		if E.Name() == "Info" {
+			w.entryLow = E
+		}
 	}
-	if w.entry == nil {
-		return nil, "entry point Info not found"
+	if w.entry == nil || w.entryLow == nil {
+		return nil, "entry points Info / Error not found"
 	}
 	return w, ""
 }
@@ -265,6 +269,9 @@ func (w *lcWorld) newState() *lcState {
 			}
 			return kStr(""), true
 		case "GetLevel":
+			if lcNarrow(recv.Name) {
+				return w.ew.ll.rangeValue(ip, 400, 999), true
+			}
 			return w.ew.ll.rangeValue(ip, 0, 999), true
 		case "Start":
 			st.events = append(st.events, "start "+recv.Name)
@@ -290,6 +297,20 @@ func (w *lcWorld) newState() *lcState {
 		return nil, false
 	}
 	return st
+}
+
+// lcNarrow: every other configured stub logger enables only levels from 400 (WARN) up, so that INFO probes tell whether
+// the level test is made against the logger that serves the tag now.
+func lcNarrow(sym string) bool {
+	kind, name, _ := strings.Cut(sym, ":")
+	if kind != "logger" || name == "root" || name == "builtin" {
+		return false
+	}
+	h := 0
+	for i := 0; i < len(name); i++ {
+		h = h*31 + int(name[i])
+	}
+	return h%2 == 0
 }
 
 func (ll *levelLayout) rangeValue(ip *Interp, lo, hi int64) AV {
@@ -620,6 +641,22 @@ seqLoop:
 					}
 					if st.stopped[got] && got != "logger:builtin" {
 						fail(seq, i, "an event logged through tag %q is handed to %s, which has been stopped (an asynchronous logger would panic on its closed queue)", t, got)
+					}
+					// the level test is made against the logger serving the tag now
+					st.received = nil
+					_, out, err = st.call(w.entryLow, st.ctx, st.tagPtr[t], NilV{})
+					if err != nil {
+						oodWhy = err.Error()
+						break seqLoop
+					}
+					switch {
+					case out != "ok":
+						fail(seq, i, "logging at INFO through tag %q %s", t, out)
+						continue seqLoop
+					case lcNarrow(got) && len(st.received) != 0:
+						fail(seq, i, "an INFO event logged through tag %q reaches %v although the serving logger %s enables only WARN and above", t, st.received, got)
+					case !lcNarrow(got) && (len(st.received) != 1 || st.received[0] != got):
+						fail(seq, i, "an INFO event logged through tag %q reaches %v, want exactly the serving logger %s, which enables every level", t, st.received, got)
 					}
 				}
 				var hs []string
